@@ -8,7 +8,9 @@
 //! Operations (layer indices 0-based, as in the API):
 //!   put k v | put_ttl k v ttl(long|short) | put_layer k v layer | get k | get_layer k layer |
 //!   promote k from to | remove k | clear | batch_get ks | batch_put items[{k,v}] |
-//!   put_val k v ck | get_val k ck(value name | "none") | corrupt k | delete k | tick
+//!   put_val k v ck | get_val k ck(value name | "none") | tick |
+//!   corrupt k | delete k | trunc0 k | trunc1 k | extend1 k   (environment: the disk layer's file of k)
+//! Value "e" is the empty value.
 //! Events: {"op":"new",...config} then one per operation: the operation's fields + "seq",
 //! "res" (a string: value name / "none" / "ok" / "true" / "false" / "err" / "panic"), "rs" for
 //! batch_get, and "obs": per layer {key: value name | "none"} read back with get_from_layer
@@ -19,7 +21,7 @@ use cascette_cache::config::{DiskCacheConfig, MemoryCacheConfig, MultiLayerCache
 use cascette_cache::key::RibbitKey;
 use cascette_cache::multi_layer::MultiLayerCacheImpl;
 use cascette_cache::traits::{AsyncCache, MultiLayerCache};
-use cascette_cache::validation::Md5ValidationHooks;
+use cascette_cache::validation::{Md5ValidationHooks, NgdpValidationHooks};
 use cascette_crypto::ContentKey;
 use serde_json::{Value, json};
 use std::path::{Path, PathBuf};
@@ -34,15 +36,30 @@ const LONG_TTL: Duration = Duration::from_secs(3600);
 // ---- concretisation (injective; checked at start) ---------------------------
 fn value_bytes(v: &str) -> Vec<u8> {
     match v {
+        "e" => vec![], // the empty value
         "bad" => b"\xffcorrupted file content\x00".to_vec(),
         _ => format!("payload<{v}>{}", "#".repeat(v.len() * 3)).into_bytes(),
     }
 }
-const VALUE_NAMES: [&str; 5] = ["v1", "v2", "v3", "v4", "bad"];
+const VALUE_NAMES: [&str; 6] = ["v1", "v2", "v3", "v4", "e", "bad"];
+/// Name of a byte string: a value, a value without its last byte ("v1-"), a value with one more byte
+/// ("v1+", "e+"), or "other".
 fn value_name(b: &[u8]) -> String {
     for n in VALUE_NAMES {
         if value_bytes(n) == b {
             return n.to_string();
+        }
+    }
+    for n in VALUE_NAMES {
+        if n == "bad" {
+            continue;
+        }
+        let v = value_bytes(n);
+        if !v.is_empty() && v[..v.len() - 1] == *b {
+            return format!("{n}-");
+        }
+        if b.len() == v.len() + 1 && b[..v.len()] == v[..] && b[v.len()] == b'+' {
+            return format!("{n}+");
         }
     }
     "other".to_string()
@@ -114,7 +131,12 @@ fn new_run(prog: &Value) -> Run {
         MultiLayerCacheImpl::<RibbitKey>::new(cfg).expect("MultiLayerCacheImpl::new")
     };
     if prog["hooks"].as_bool().unwrap_or(false) {
-        cache.set_validation_hooks(Some(Arc::new(Md5ValidationHooks::new())));
+        // the library's own hook implementations
+        if prog["hookimpl"].as_str() == Some("ngdp") {
+            cache.set_validation_hooks(Some(Arc::new(NgdpValidationHooks::new())));
+        } else {
+            cache.set_validation_hooks(Some(Arc::new(Md5ValidationHooks::new())));
+        }
     }
     let keys = prog["keys"].as_array().unwrap().iter().map(|x| x.as_str().unwrap().to_string()).collect();
     Run { rt, cache, disk_dir, keys, nlayers: kinds.len(), _dir: dir }
@@ -205,20 +227,31 @@ fn exec(run: &Run, op: &Value) -> (String, Option<Vec<String>>) {
                 Err(_) => "err".into(),
             }
         }
-        // environment: damage the disk layer's file of the key
-        "corrupt" | "delete" => {
+        // environment: damage the disk layer's file of the key; "now" = what the file holds afterwards
+        "corrupt" | "delete" | "trunc0" | "trunc1" | "extend1" => {
             let f = run.disk_dir.as_ref().and_then(|d| find_file(d, key(s(op, "k")).as_cache_key()));
-            match f {
+            return match f {
                 Some(p) => {
-                    if name == "corrupt" {
-                        std::fs::write(&p, value_bytes("bad")).expect("driver: corrupt file");
-                    } else {
-                        std::fs::remove_file(&p).expect("driver: delete file");
+                    let old = std::fs::read(&p).expect("driver: read file");
+                    let new = match name {
+                        "corrupt" => Some(value_bytes("bad")),
+                        "delete" => None,
+                        "trunc0" => Some(vec![]),
+                        "trunc1" => Some(old[..old.len().saturating_sub(1)].to_vec()),
+                        _ => Some([&old[..], b"+"].concat()),
+                    };
+                    match &new {
+                        Some(b) => std::fs::write(&p, b).expect("driver: rewrite file"),
+                        None => std::fs::remove_file(&p).expect("driver: delete file"),
                     }
-                    "true".into()
+                    let now = match std::fs::read(&p) {
+                        Ok(b) => value_name(&b),
+                        Err(_) => "none".to_string(),
+                    };
+                    ("true".into(), Some(vec![now]))
                 }
-                None => "false".into(),
-            }
+                None => ("false".into(), Some(vec!["none".to_string()])),
+            };
         }
         "tick" => {
             std::thread::sleep(TICK);
@@ -247,7 +280,12 @@ fn observe(run: &Run, seq: u64) -> Value {
 
 fn header(prog: &Value) -> Value {
     json!({"op": "new", "kinds": prog["kinds"], "caps": prog["caps"], "hooks": prog["hooks"].as_bool().unwrap_or(false),
-           "keys": prog["keys"], "strategy": prog["strategy"].as_str().unwrap_or("on_hit")})
+           "keys": prog["keys"], "strategy": prog["strategy"].as_str().unwrap_or("on_hit"),
+           "hookimpl": prog["hookimpl"].as_str().unwrap_or("md5")})
+}
+
+fn is_fault(op: &Value) -> bool {
+    matches!(op["op"].as_str(), Some("corrupt" | "delete" | "trunc0" | "trunc1" | "extend1"))
 }
 
 fn step(run: &Run, op: &Value, seq: u64, out: &Emit) -> bool {
@@ -258,7 +296,11 @@ fn step(run: &Run, op: &Value, seq: u64, out: &Emit) -> bool {
         Ok((res, rs)) => {
             ev["res"] = json!(res);
             if let Some(rs) = rs {
-                ev["rs"] = json!(rs);
+                if is_fault(op) {
+                    ev["now"] = json!(rs[0]);
+                } else {
+                    ev["rs"] = json!(rs);
+                }
             }
         }
         Err(m) => {
@@ -269,8 +311,7 @@ fn step(run: &Run, op: &Value, seq: u64, out: &Emit) -> bool {
             }
         }
     }
-    let fault = matches!(op["op"].as_str(), Some("corrupt") | Some("delete"));
-    if !fault {
+    if !is_fault(op) {
         match guarded(|| observe(run, seq)) {
             Ok(o) => ev["obs"] = o,
             Err(m) => {
@@ -316,9 +357,10 @@ fn run_random(prog: &Value, out: &Emit) {
     };
     let nk = 2 + rng.below(3) as usize;
     let keys: Vec<String> = ["a", "b", "c", "d"][..nk].iter().map(|x| x.to_string()).collect();
-    let vals = ["v1", "v2", "v3"];
+    let vals = ["v1", "v2", "v3", "e"];
     let strat = *rng.pick(&["on_hit", "after2", "freq", "age", "manual"]);
-    let cfg = json!({"kinds": kinds, "caps": caps, "hooks": rng.chance(1, 2), "keys": keys, "strategy": strat});
+    let hookimpl = *rng.pick(&["md5", "ngdp"]);
+    let cfg = json!({"kinds": kinds, "caps": caps, "hooks": rng.chance(1, 2), "keys": keys, "strategy": strat, "hookimpl": hookimpl});
     let run = new_run(&cfg);
     out.ev(header(&cfg));
     let nl = kinds.len() as u64;
@@ -349,8 +391,7 @@ fn run_random(prog: &Value, out: &Emit) {
             }
             83..=87 => json!({"op": "put_val", "k": k, "v": v, "ck": if rng.chance(2, 3) { v } else { *rng.pick(&vals) }}),
             88..=93 => json!({"op": "get_val", "k": k, "ck": if rng.chance(1, 4) { "none" } else { *rng.pick(&vals) }}),
-            94..=96 => json!({"op": "corrupt", "k": k}),
-            97..=98 => json!({"op": "delete", "k": k}),
+            94..=98 => json!({"op": *rng.pick(&["corrupt", "delete", "trunc0", "trunc0", "trunc1", "extend1"]), "k": k}),
             _ => {
                 if ticks < 2 {
                     ticks += 1;
